@@ -20,11 +20,13 @@
 EXTENDS DKGSync, TraceCommon
 VARIABLES wasc,       \* [member -> inside startSyncProtocol: no error, every peer connected, seen at some point]
           fok,        \* [member -> waiting: no error and the faulty peer's report within the barrier, seen at some point]
+          cans,       \* [member -> it was able to send its shutdown flags at some point (passed / could pass its final barrier)]
           cancelled
-tvars == <<vars, tr, l, wasc, fok, cancelled>>
+tvars == <<vars, tr, l, wasc, fok, cans, cancelled>>
 R == Traces[tr][1]
 TraceInit == /\ TrInit /\ InitWith([n |-> R.n, f |-> R.f, frej |-> R.frej])
-             /\ wasc = [i \in 1..4 |-> FALSE] /\ fok = [i \in 1..4 |-> FALSE] /\ cancelled = FALSE
+             /\ wasc = [i \in 1..4 |-> FALSE] /\ fok = [i \in 1..4 |-> FALSE] /\ cans = [i \in 1..4 |-> FALSE]
+             /\ cancelled = FALSE
 
 Max(a, b) == IF a > b THEN a ELSE b
 \* ---- predicates over an explicit state record, so that they can be evaluated on the successor state as well ----
@@ -35,11 +37,6 @@ ConnNow(S, i) == /\ S.serr[i] = "none" /\ "peererr" \notin S.cause[i]
                  /\ Faulty \subseteq S.conn[i]
 KOf(S, i) == IF S.phase[i] = "conn" THEN 1 ELSE S.step[i]
 FokNow(S, i) == S.serr[i] = "none" /\ \A f \in Faulty : S.rep[i][f] \in KOf(S, i)..(KOf(S, i) + Tol)
-Track == /\ wasc' = [i \in 1..4 |-> i \in Honest /\ StP.phase[i] = "conn" /\ (wasc[i] \/ ConnNow(StP, i))]
-         /\ fok' = [i \in 1..4 |-> /\ i \in Honest /\ StP.phase[i] \in {"conn", "wait", "stopwait", "crashed"}
-                                   /\ StP.phase[i] = phase[i] \/ StP.phase[i] = "crashed"       \* same call still pending
-                                   /\ (fok[i] \/ (StP.phase[i] # "crashed" /\ FokNow(StP, i)
-                                                   /\ (StP.phase[i] = "conn" => wasc'[i])))]
 \* the step counter of honest j as another member may already have seen it
 EffStep(j) == IF phase[j] = "conn" /\ wasc[j] THEN 1 ELSE step[j]
 Views(i, j) == IF phase[j] = "idle" THEN {rep[i][j]} ELSE {rep[i][j]} \cup (Max(rep[i][j], 0)..EffStep(j))
@@ -49,6 +46,12 @@ MinView(i, j, k) == LET ok == {v \in Views(i, j) : v \in k..(k + Tol)} IN
 Fixed(i, k) == [rep EXCEPT ![i] = [j \in Members |-> IF j \in Honest \ {i} THEN MinView(i, j, k) ELSE @[j]]]
 \* honest j has sent (or is able to send) its shutdown flag: it passed, or can pass, its final barrier
 CanShut(j) == phase[j] \in {"closing", "down"} \/ (phase[j] = "stopwait" /\ fok[j] /\ HonOK(j, step[j]))
+
+Track == /\ wasc' = [i \in 1..4 |-> i \in Honest /\ StP.phase[i] = "conn" /\ (wasc[i] \/ ConnNow(StP, i))]
+         /\ fok' = [i \in 1..4 |-> /\ i \in Honest /\ StP.phase[i] \in {"conn", "wait", "stopwait", "crashed"}
+                                   /\ \/ fok[i] /\ (StP.phase[i] = phase[i] \/ StP.phase[i] = "crashed")   \* same call still pending
+                                      \/ StP.phase[i] # "crashed" /\ FokNow(StP, i) /\ (StP.phase[i] = "conn" => wasc'[i])]
+         /\ cans' = [i \in 1..4 |-> i \in Honest /\ (cans[i] \/ CanShut(i))]
 
 \* ---- the driver's calls and the faulty member ----
 TReset == IsEvent("Reset") /\ l = 1 /\ UNCHANGED <<vars, cancelled>> /\ Track
@@ -67,7 +70,7 @@ TFOpen == /\ IsEvent("FOpen") /\ Ev.to \in Honest
 TFMsg == /\ IsEvent("FMsg")
          /\ LET m == Msg(Ev.auth, Ev.step, Ev.shutdown) IN
             IF Ev.resp = "closed"
-              THEN /\ (\A x \in fst : x.s # Ev.s) \/ ~ServerUp(Ev.to)           \* the server had ended that stream
+              THEN /\ (\A x \in fst : x.s # Ev.s) \/ ~ServerUp(Ev.to) \/ serr[Ev.to] # "none"   \* the server had ended that stream / is aborting
                    /\ UNCHANGED vars
               ELSE /\ [s |-> Ev.s, to |-> Ev.to] \in fst
                    /\ CheckInv("ServerAnswer", Ev.resp = Outcome(Ev.to, cfg.f, m))
@@ -78,7 +81,7 @@ TFClose == /\ IsEvent("FClose")
            /\ UNCHANGED cancelled /\ Track
 
 \* ---- returns ----
-What(ph) == CASE ph = "conn" -> "Started" [] ph = "wait" -> "Passed" [] ph = "stopwait" -> "Stopped" [] OTHER -> "-"
+What(ph) == CASE ph = "conn" -> "Started" [] ph = "wait" -> "Passed" [] ph \in {"stopwait", "closing"} -> "Stopped" [] OTHER -> "-"
 FarNow(i) == \/ \E f \in Faulty : rep[i][f] >= KOf(St, i) + 2
              \/ \E j \in Honest \ {i} : EffStep(j) >= KOf(St, i) + 2
 ErrClasses(i) == (IF serr[i] # "none" THEN {serr[i], "ctx"} ELSE {})
@@ -114,16 +117,15 @@ TPassed == /\ IsEvent("Passed") /\ Ev.ok /\ Ev.i \in Honest /\ phase[Ev.i] = "wa
               /\ rep' = Fixed(i, step[i])
            /\ UNCHANGED <<cfg, step, cause, conn, shut, serr, valid, sent, fst, cancelled>> /\ Track
 \* shutdownFunc returned nil: final barrier, a shutdown message to every peer, a shutdown flag from every peer
-TStopped == /\ IsEvent("Stopped") /\ Ev.ok /\ Ev.i \in Honest /\ phase[Ev.i] = "stopwait"
+TStopped == /\ IsEvent("Stopped") /\ Ev.ok /\ Ev.i \in Honest /\ phase[Ev.i] \in {"stopwait", "closing"}
             /\ LET i == Ev.i
                    adv == {j \in Honest \ {i} : phase[j] = "stopwait"}      \* they passed their final barrier unseen
                IN
-               /\ CheckInv("BarrierFaultyPeer", fok[i])
-               /\ CheckInv("BarrierSafe", HonOK(i, step[i]))
-               /\ CheckInv("CleanShutdown", (\A j \in Honest \ {i} : CanShut(j)) /\ Faulty \subseteq shut[i])
+               /\ phase[i] = "stopwait" => CheckInv("BarrierFaultyPeer", fok[i]) /\ CheckInv("BarrierSafe", HonOK(i, step[i]))
+               /\ CheckInv("CleanShutdown", (\A j \in Honest \ {i} : cans[j] \/ CanShut(j)) /\ Faulty \subseteq shut[i])
                /\ phase' = [j \in Honest |-> IF j = i THEN "down" ELSE IF j \in adv THEN "closing" ELSE phase[j]]
                /\ passed' = [j \in Honest |-> IF j = i \/ j \in adv THEN step[j] ELSE passed[j]]
-               /\ rep' = Fixed(i, step[i])
+               /\ rep' = IF phase[i] = "stopwait" THEN Fixed(i, step[i]) ELSE rep
                /\ shut' = [j \in Honest |-> IF j = i THEN Peers(i) ELSE IF ServerUp(j) THEN shut[j] \cup {i} ELSE shut[j]]
                /\ sent' = [sent EXCEPT ![i] = Peers(i)]
                /\ conn' = [j \in Honest |-> conn[j] \ {i}]
